@@ -5,7 +5,7 @@ import RepeVerif.Driver.Common
 Driver for the `commit` correspondence family (C10).
 
 ```
-SCRIPT := <puller> <comp none|zstd> <fmt beve|raw> <open ok|err|cut> <verify ok|rej> <trailer N>
+SCRIPT := <puller> <comp none|zstd> <fmt beve|raw> <open ok|err|cut> <verify ok|rej|panic> <trailer N>
           <dest old|none|dir|olds|nones|noparent|symparent> <stop -|N> <dec -|err|B> <fault -|N|sync> wire <resp>…
   puller := file | bevezst | beve | trailer | fileasync | verifiedasync | trailerasync
             (an async puller may carry the suffix `@ws`: driven over a WebSocketClient; same model)
@@ -75,6 +75,7 @@ structure Parsed where
   s : Script
   codec : Codec
   stale : Bool := false   -- a stale temp file exists before the pull
+  verifyPanics : Bool := false
 
 def compOf : String → Option Comp
   | "none" => some .none | "zstd" => some .zstd | _ => none
@@ -91,7 +92,7 @@ def parseScript (ws : List String) : Option (Parsed × List String) :=
     let after := (rest.dropWhile (· ≠ "::")).drop 1
     match pullerOf (if pu.endsWith "@ws" then (pu.dropEnd 3).toString else pu), compOf co, allSome (wireWs.map respOf), decOf dc with
     | some p, some comp, some wire, some dec =>
-      if (fm = "beve" ∨ fm = "raw") ∧ (op = "ok" ∨ op = "err" ∨ op = "cut") ∧ (ve = "ok" ∨ ve = "rej")
+      if (fm = "beve" ∨ fm = "raw") ∧ (op = "ok" ∨ op = "err" ∨ op = "cut") ∧ (ve = "ok" ∨ ve = "rej" ∨ ve = "panic")
           ∧ (de = "old" ∨ de = "none" ∨ de = "dir" ∨ de = "olds" ∨ de = "nones" ∨ de = "noparent" ∨ de = "symparent") ∧ tr.isNat ∧ (st = "-" ∨ st.isNat) ∧ (wf = "-" ∨ wf = "sync" ∨ wf.isNat) then
         let stop := if st = "-" then none else some (natOf st)
         if stop.isSome ∧ !p.usesWriteFile then none else
@@ -99,7 +100,7 @@ def parseScript (ws : List String) : Option (Parsed × List String) :=
                     verifyOk := ve = "ok", trailer := natOf tr, renameOk := de ≠ "dir",
                     writeFault := if wf = "-" ∨ wf = "sync" then none else some (natOf wf),
                     syncOk := wf ≠ "sync", createOk := de ≠ "noparent" },
-                ⟨fun _ => dec, fun _ => []⟩, de = "olds" ∨ de = "nones"⟩, after)
+                ⟨fun _ => dec, fun _ => []⟩, de = "olds" ∨ de = "nones", ve = "panic"⟩, after)
       else none
     | _, _, _, _ => none
   | _ => none
@@ -136,7 +137,11 @@ def scriptObs (q : Parsed) : String :=
   let dest := if fs.dest = some [0] then "same" else match fs.dest with
     | some c => digest c
     | none => "gone"
-  let base := joinSp ["ret", showRet r.ret, "dest", dest, "tmp", if fs.tmp.isSome then "1" else "0"]
+  -- a panicking `verify` has the file-system effect of a rejecting one (the unwinding drops the guard);
+  -- the call unwinds instead of returning `Err` exactly when `verify` is reached
+  let reached := q.verifyPanics && q.p.verifies &&
+    (run Gen.Commit.steps q.p { q.s with verifyOk := true, renameOk := true } q.codec).ret == .ok
+  let base := joinSp ["ret", if reached then "panic" else showRet r.ret, "dest", dest, "tmp", if fs.tmp.isSome then "1" else "0"]
   if q.p.hasTrailer ∧ r.ret = .ok then
     let h := Hold.run q.s.trailer (decoded q.p q.s q.codec).writes
     base ++ " seen " ++ digest h.out.flatten ++ " trailer " ++ hexOfBytes h.hold
